@@ -36,6 +36,12 @@ func checkC12(c *Ctx) {
 		c.c12CounterPreserved(b)
 	}
 	c.c12Counter()
+	// the entries removed are the selected ones: deletion uses the backend's own index function on the collected hash/key (R07.1)
+	c.borrow("C07", func() {
+		for _, b := range backends {
+			c.c07Index(b)
+		}
+	}, func(o *coreObl) (string, bool) { return "R12.3", o.Rule == "R07.1" && strings.Contains(o.Construct, ".evict") })
 	// the count compared with CountSoftLimit is Len(): it has to be the number of stored entries (every shard, every entry once)
 	c.borrow("C07", func() {
 		for _, b := range backends {
